@@ -126,8 +126,10 @@ def r1(ctx, r):
     ok = len(lam) == 1
     if ok:
         c = [x for x in lam[0].stmts() if x.node.get("k") == "mcall" and last(x.node.get("callee", "")) == "processHttpRequest"][0]
-        ok = [key_of(a) for a in c.node["args"]] == ["sid", "requestData"]
-    r.expect(ok, h, None, "task payload", "the enqueued task does not process (sid, requestData)", okdesc="task = processHttpRequest(sid, requestData)")
+        # (sid, the extracted bytes, and — if present — the framing decisions taken for exactly this request, i.e. captured locals)
+        ks = [key_of(a) for a in c.node["args"]]
+        ok = ks[:2] == ["sid", "requestData"] and all(k is not None and "." not in k and "->" not in k for k in ks[2:])
+    r.expect(ok, h, None, "task payload", "the enqueued task does not process (sid, requestData, per-request framing decisions)", okdesc="task = processHttpRequest(sid, requestData…)")
 
 
 def r2(ctx, r):
@@ -236,14 +238,69 @@ def r3(ctx, r):
                      "earlier body and the peer loses framing on the connection" % (short(f.name), lt), okdesc="%s: %s written together with its Content-Length" % (last(f.name), lt))
     if nb < 3:
         raise AnalysisBroken("only %d direct response-body writes found (floor 3)" % nb)
-    # bodyless statuses on HEAD drop the header
+    # bodyless statuses (1xx, 204, 304 — RFC 9110 §6.4.1) carry neither body bytes nor a Content-Length on the wire, for ANY method
+    # (HEAD: no body; its Content-Length may stay unless the status is bodyless).  Decided in two steps: the status predicate is
+    # evaluated exactly over all status codes; the copy into the wire message is behind clear() / erase on every path it selects.
+    from ..finite import compile_expr, NotPure
     p = fn(ctx, HS, "processHttpRequest", HSF)
-    stb = [b for b in p.blocks.values() if b.cond is not None and common.cmp_parts(b.cond) and show(strip_casts(common.cmp_parts(b.cond)[1])) == "res.status" and const_value(common.cmp_parts(b.cond)[2]) in (204, 304)]
-    hd = [b for b in p.blocks.values() if b.cond is not None and "HEAD" in show(b.cond) and "req.method" in show(b.cond)]
-    er = [e for e in p.stmts() if e.node.get("k") == "mcall" and last(e.node.get("callee", "")) == "erase" and "Content-Length" in show(e.node) and len(stb) == 2 and hd
-          and search(p, ("block", hd[0].succs[0]), lambda x, e=e: x is e, eh=False, edge_ok=lambda b, si: not (b in stb and si == 0)) is None and search(p, ("block", hd[0].succs[0]), lambda x, e=e: x is e, eh=False) is not None]
+    copy = [e for e in p.stmts() if asg(e.node) and show(strip_casts(asg(e.node)[0])) == "httpRes.body" and key_of(strip_views(asg(e.node)[1])) == "res.body"]
+    if len(copy) != 1:
+        raise AnalysisBroken("processHttpRequest: copy of the body into the wire message not found")
+    pred = None
+    for e in p.stmts():
+        if e.node.get("k") == "decl":
+            for dv in e.node["vars"]:
+                i = dv.get("init")
+                if dv.get("t", "").replace("const ", "") == "bool" and i is not None and {const_value(x) for x in walk(i) if x.get("k") == "int"} >= {204, 304}:
+                    pred = dv
     r.instance()
-    r.expect(len(er) >= 1, p, None, "bodyless status length", "a HEAD response with status 204/304 keeps a Content-Length", okdesc="HEAD 204/304: Content-Length dropped")
+    if pred is None:
+        # the older spelling: explicit `res.status == 204 || res.status == 304` under the HEAD branch only
+        r.fail(p, copy[0], "bodyless status carries a body", "processHttpRequest has no 'this status has no content' predicate covering 1xx, 204 and 304 for every method: a handler that sets content and then status 304, or only "
+               "status 204 (the pre-seeded 404 text stays), puts Content-Length and body bytes on the wire — an RFC 9112 framer reads them as the start of the next response")
+        return
+
+    def subst(n):
+        if isinstance(n, list):
+            return [subst(x) for x in n]
+        if not isinstance(n, dict):
+            return n
+        if n.get("k") == "member" and show(n) == "res.status":
+            return {"k": "var", "n": "status", "t": "int", "d": -1}
+        return {k: subst(v) if isinstance(v, (dict, list)) else v for k, v in n.items()}
+    try:
+        fnp, _t, _c = compile_expr(subst(strip_casts(pred["init"])), ["status"])
+    except NotPure as ex:
+        raise AnalysisBroken("bodyless-status predicate not evaluable: %s" % ex)
+    wrong = [st for st in range(0, 1000) if bool(fnp(st)) != (100 <= st < 200 or st in (204, 304))]
+    r.expect(not wrong, p, None, "bodyless status set", "the predicate `%s` disagrees with {1xx, 204, 304} for status %s" % (pred["n"], wrong[:5]), okdesc="%s ⇔ status ∈ {1xx, 204, 304} (1000 codes)" % pred["n"])
+    vocab3 = Vocab(["B", "head", "cleared", "erased"])
+
+    def leaf3(n):
+        if n.get("k") == "var" and n.get("d") == pred["d"]:
+            return A("B")
+        cp = common.cmp_parts(n)
+        if cp and cp[0] in ("==", "!=") and "req.method" in show(n) and "HEAD" in show(n):
+            return A("head") if cp[0] == "==" else Not(A("head"))
+        return None
+
+    def eff3(e):
+        if e.kind != "stmt":
+            return None
+        n = e.node
+        if n.get("k") == "mcall" and last(n.get("callee", "")) == "clear" and show(strip_casts(n.get("obj") or {})) == "res.body":
+            return [("set", "cleared", True)]
+        if n.get("k") == "mcall" and last(n.get("callee", "")) == "erase" and show(strip_casts(n.get("obj") or {})) == "res.headers" and "Content-Length" in show(n):
+            return [("set", "erased", True)]
+        if n.get("k") == "decl" and any(v["d"] == pred["d"] for v in n["vars"]):
+            return [("havoc", "B"), ("set", "cleared", False), ("set", "erased", False)]
+        return None
+    pa3 = PredAbs(p, vocab3, leaf3, eff3, eh=False)
+    r.instance()
+    r.expect(pa3.entails(copy[0], Or(Not(A("B")), And(A("cleared"), A("erased")))), p, copy[0], "bodyless status carries a body", "the body is copied to the wire message on a path where the status is bodyless but the body was "
+             "not cleared / Content-Length not erased (known: %s)" % ",".join(pa3.describe(copy[0])), okdesc="bodyless status ⇒ body cleared and Content-Length erased")
+    r.instance()
+    r.expect(pa3.entails(copy[0], Or(Not(A("head")), A("cleared"))), p, copy[0], "HEAD with body (any status)", "the body is copied to the wire message on a HEAD path without having been cleared", okdesc="HEAD ⇒ body cleared")
 
 
 def r4(ctx, r):
@@ -364,46 +421,73 @@ def r6(ctx, r):
         r.instance()
         nxt = [x for x in e.block.elems[e.idx:] if x.kind == "stmt" and asg(x.node) and key_of(asg(x.node)[0]) == "connectionHeader" and [y.get("v") for y in walk(asg(x.node)[1]) if y.get("k") == "str"] == ["close"]]
         r.expect(len(nxt) == 1, p, e, "close intent without header", "the close intent is set without announcing `Connection: close`", okdesc="close intent ⇒ Connection: close header")
-    vocab = Vocab(["wantclose", "will"])
+    # the decision: `close` anywhere in the Connection option list closes; an HTTP/1.0 request persists only with an explicit
+    # keep-alive.  Two bools are folded over the comma-split, case-folded options; the decision is taken from them.
+    def opt_var(lit):
+        for e in p.stmts():
+            a_ = asg(e.node)
+            if a_ and strip_casts(a_[0]).get("k") == "var" and any(x.get("k") in ("opcall", "bin") and x.get("op") == "==" and [y.get("v") for y in walk(x) if y.get("k") == "str"] == [lit] for x in walk(a_[1])):
+                return strip_casts(a_[0]), e
+        return None, None
+    cvar, cdef = opt_var("close")
+    kvar, kdef = opt_var("keep-alive")
+    r.instance()
+    if cvar is None:
+        # older spelling: the whole value compared with "close"
+        whole = [b for b in p.blocks.values() if b.cond is not None and any(q[0] == "==" and [y.get("v") for y in walk(q[2]) if y.get("k") == "str"] == ["close"] for q in common.cmp_both(b.cond))]
+        if whole:
+            r.fail(p, None, "Connection: close ignored", "the Connection request field is compared with \"close\" as a whole value: `Connection: TE, close` / `close, TE` are answered keep-alive and the connection stays open")
+            return
+        raise AnalysisBroken("processHttpRequest: Connection option handling not identified")
+    split = any(x.get("k") == "call" and last(x.get("callee", "")) == "getline" and any(y.get("k") == "char" and y.get("cv") == 44 for y in walk(x)) for x in p.nodes.values())
+    low = [e for e in p.stmts() if e.node.get("k") == "call" and last(e.node.get("callee", "")) == "transform" and "tolower" in show(e.node) and search(p, e, lambda x: x is cdef, eh=False) is not None]
+    sticky = any(x.get("k") == "var" and x.get("d") == cvar.get("d") for x in walk(asg(cdef.node)[1]))
+    r.expect(split and bool(low) and sticky, p, cdef, "Connection options", "the Connection field is not handled as a comma-separated, case-insensitive option list (comma split: %s, lower-cased: %s, `close` remembered across "
+             "options: %s)" % (split, bool(low), sticky), okdesc="Connection: comma-split, case-folded, close is sticky")
+    vocab = Vocab(["close", "ka", "http10", "will"])
 
     def leaf(n):
-        cp = common.cmp_parts(n)
-        if cp and cp[0] == "==" and key_of(strip_views(cp[1])) == "connValue" and [y.get("v") for y in walk(cp[2]) if y.get("k") == "str"] == ["close"]:
-            return A("wantclose")
+        if n.get("k") == "var" and n.get("d") == cvar.get("d"):
+            return A("close")
+        if kvar is not None and n.get("k") == "var" and n.get("d") == kvar.get("d"):
+            return A("ka")
         if n.get("k") == "var" and n["n"] == "shouldCloseConnection":
             return A("will")
+        for q in common.cmp_both(n):
+            if q[0] in ("==", "!=") and "version.minor" in show(q[1]) and const_value(strip_casts(q[2])) == 0:
+                return A("http10") if q[0] == "==" else Not(A("http10"))
         return None
 
     def effects(e):
         if e.kind != "stmt":
             return None
-        a = asg(e.node)
-        if a and key_of(a[0]) == "shouldCloseConnection":
-            cv = const_value(strip_casts(a[1]))
-            return [("set", "will", bool(cv))] if cv is not None else [("havoc", "will")]
+        a_ = asg(e.node)
+        if a_ and key_of(a_[0]) == "shouldCloseConnection":
+            cv_ = const_value(strip_casts(a_[1]))
+            return [("set", "will", bool(cv_))] if cv_ is not None else [("havoc", "will")]
+        if a_ and strip_casts(a_[0]).get("k") == "var" and strip_casts(a_[0]).get("d") == cvar.get("d"):
+            return [("havoc", "close")]
+        if a_ and kvar is not None and strip_casts(a_[0]).get("k") == "var" and strip_casts(a_[0]).get("d") == kvar.get("d"):
+            return [("havoc", "ka")]
         if e.node.get("k") == "decl":
             ops = []
             for v in e.node["vars"]:
                 if v["n"] == "shouldCloseConnection":
-                    cv = const_value(strip_casts(v.get("init") or {}))
-                    ops.append(("set", "will", bool(cv)) if cv is not None else ("havoc", "will"))
-                if v["n"] == "connValue":
-                    ops.append(("havoc", "wantclose"))
+                    cv_ = const_value(strip_casts(v.get("init") or {}))
+                    ops.append(("set", "will", bool(cv_)) if cv_ is not None else ("havoc", "will"))
             return ops
         return None
-    pa = PredAbs(p, vocab, leaf, effects, init=Not(A("wantclose")), eh=False)
+    pa = PredAbs(p, vocab, leaf, effects, eh=False)
     main = main_send(p)[3]
     r.instance()
     if not r.expect(len(main) == 1, p, None, "main send", "main response send not found"):
         return
     r.instance()
-    r.expect(pa.entails(main[0], Or(Not(A("wantclose")), A("will"))), p, main[0], "Connection: close ignored", "the response is sent on a path where the request asked for `Connection: close` but the close intent is not set (%s)" % ", ".join(pa.describe(main[0])),
-             okdesc="request close ⇒ close intent at the send")
-    # the request's value is compared case-insensitively
-    low = [e for e in p.stmts() if e.node.get("k") == "call" and last(e.node.get("callee", "")) == "transform" and "connValue.begin()" in show(e.node) and "tolower" in show(e.node)]
-    cv = [v for e in p.stmts() if e.node.get("k") == "decl" for v in e.node["vars"] if v["n"] == "connValue"]
+    r.expect(pa.entails(main[0], Or(Not(A("close")), A("will"))), p, main[0], "Connection: close ignored", "the response is sent on a path where the request carried a `close` option but the close intent is not set (%s)" % ", ".join(pa.describe(main[0])),
+             okdesc="close option ⇒ close intent at the send")
     r.instance()
-    r.expect(bool(low) and cv and "connectionIt->second" in show(cv[0].get("init") or {}), p, None, "Connection value", "the Connection request header is not lower-cased before the comparison", okdesc="Connection value lower-cased")
+    r.expect(kvar is not None and pa.entails(main[0], Or(Not(A("http10")), A("ka"), A("will"))), p, main[0], "HTTP/1.0 kept alive by default", "an HTTP/1.0 request without a keep-alive option is answered on a path where the close intent is not "
+             "set: the response says keep-alive and the connection stays open — an HTTP/1.0 client that reads to EOF hangs", okdesc="HTTP/1.0 without keep-alive ⇒ close intent")
     # header set from connectionHeader before serialisation
     sh = [e for e in p.stmts() if e.node.get("k") == "mcall" and last(e.node.get("callee", "")) == "setHeader" and key_of(e.node.get("obj")) == "httpRes" and [y.get("v") for y in walk(e.node["args"][0]) if y.get("k") == "str"] == ["Connection"]]
     tw = [e for e in p.stmts() if e.node.get("k") == "mcall" and last(e.node.get("callee", "")) == "toWireFormat" and key_of(e.node.get("obj")) == "httpRes"]
